@@ -125,3 +125,16 @@ Theorem C11_lookup_item_kind_word : forall p ctx r k a,
   spec_accepts p ctx r (render p ctx r) = true.
 Proof. exact lookup_item_kind_word. Qed.
 Print Assumptions C11_lookup_item_kind_word.
+
+(* ---- only documented entities are linked --------------------------------------------------- *)
+(* [documented]: the entities whose page shows the target are displayed (Spec); a link is only
+   ever emitted to such an entity -- no reference leads to a page that is not written *)
+Theorem C11_link_only_documented : forall p ctx r j,
+  render p ctx r = RLink j -> documented p j = true.
+Proof. exact link_only_documented. Qed.
+Print Assumptions C11_link_only_documented.
+
+(* the test coded in convert_link / FortranBase.page_is_written is that notion *)
+Theorem C11_displayed_is_documented : forall p i, displayed p i = documented p i.
+Proof. exact displayed_documented. Qed.
+Print Assumptions C11_displayed_is_documented.
